@@ -138,6 +138,8 @@ static Outcome read_session(size_t file_size, bool keep_encs) {
         for (int i = 0; i < 3; i++) cfg.prio[i] = cfg.prio2[i] = perms[g_order][i];
     }
     alloccap::big_requests = 0;
+    oc.encs.reserve(keep_encs ? 64 : 0);
+    long live0 = alloccap::live_blocks;
     vs_begin(nullptr, 0, &cfg);
     {
         File f;
@@ -165,6 +167,10 @@ static Outcome read_session(size_t file_size, bool keep_encs) {
     vs_result_t vr;
     vs_end(&vr);
     if (vr.left_running) add_violation("thread-left", std::string("a worker thread outlived close(): ") + g_sh->label);
+    if (!keep_encs) {
+        long live1 = alloccap::live_blocks;
+        if (live1 != live0) add_violation("leak", std::to_string(live1 - live0) + " allocation(s) still live after the File is gone: " + g_sh->label);
+    }
     return oc;
 }
 
